@@ -105,13 +105,22 @@ type c12Ptrs struct {
 	L []int
 }
 
+type c12Node struct {
+	Val  int      `yae:"val"`
+	Next *c12Node `yae:"next"`
+}
+type c12Tree struct {
+	Name     string    `yae:"name"`
+	Children []c12Tree `yae:"children"`
+}
+
 // H12_host: nil, typed nil, pointers, nested and unsupported host values: a
 // value or an error, never a panic.
 func H12_host() {
 	var host interface{}
 	f := 1.5
 	var nilS *c12Ptrs
-	switch sv.Choice("host", 16) {
+	switch sv.Choice("host", 20) {
 	case 0:
 		host = nil
 	case 1:
@@ -145,10 +154,20 @@ func H12_host() {
 		host = &ni // pointer to a nil interface
 	case 14:
 		host = map[string]interface{}{"p": &nilS}
+	case 15: // a Go type that refers to itself: finite list (ends in a nil link)
+		host = &c12Node{Val: 1, Next: &c12Node{Val: 2}}
+	case 16: // a ring
+		n := &c12Node{Val: 1}
+		n.Next = n
+		host = n
+	case 17: // self-reference through a slice, empty at the leaves
+		host = c12Tree{Name: "root", Children: []c12Tree{{Name: "leaf", Children: []c12Tree{}}}}
+	case 18:
+		host = map[string]interface{}{"p": &c12Node{Val: 1}, "L": []c12Tree{}}
 	default:
 		host = "a string"
 	}
-	src := []string{"1 + 1", "get(p, 0) + len(L)", "p", "L[0]"}[sv.Choice("src", 4)]
+	src := []string{"1 + 1", "get(p, 0) + len(L)", "p", "L[0]", "val + 1", "len(children)"}[sv.Choice("src", 6)]
 	api := sv.Choice("api", 3)
 	cls := sv.Outcome(func() {
 		switch api {
